@@ -9,11 +9,13 @@ import PoetryVerif.Drv.VC
 import PoetryVerif.Drv.Generic
 import PoetryVerif.Drv.Marker
 import PoetryVerif.Drv.Conc
+import PoetryVerif.Drv.Build
+import PoetryVerif.Drv.Select
 
 open Poetry Poetry.Proto
 
 def handlers : List (String → List String → Option String) :=
-  [Poetry.Drv.handleVC, Poetry.Drv.handleGeneric, Poetry.Drv.handleMarkerAll, Poetry.Drv.handleConc]
+  [Poetry.Drv.handleVC, Poetry.Drv.handleGeneric, Poetry.Drv.handleMarkerAll, Poetry.Drv.handleConc, Poetry.Drv.handleSelect]
 
 def dispatch (op : String) (args : List String) : List (String → List String → Option String) → String
   | [] => "bad-op"
